@@ -15,5 +15,7 @@ META = {
                    "Not decided: byte equality after paging, disk failures at every point in time.",
     "assumptions": ["SharedMemory / files / thread pools are opaque effects; `callback` closures analysed with the facts at submission"],
 }
+from .C10 import r9_memory_lifecycle  # noqa: E402  (the worker-side reader: every buffer obtained by get is closed exactly once)
+
 RULES = [r_get_pagein, r_pageoutable, r_eviction_flow, r_purge, r_close_callback, r_pageout_transition, r_pageout_callback,
-         r_pagein_callback, r_disk, r_reader_ids, r_server_dispatch, r_client_protocol, r_segment_name]
+         r_pagein_callback, r_disk, r_reader_ids, r_server_dispatch, r_client_protocol, r_segment_name, r9_memory_lifecycle]
